@@ -41,7 +41,9 @@ def insertFile (f : File String) : List (File String) → List (File String)
   | g :: gs => if f.1 < g.1 then f :: g :: gs else if f.1 == g.1 then f :: gs else g :: insertFile f gs
 
 /-- files as found on disk afterwards: a later write to the same name replaces the earlier one; sorted by name -/
-def onDisk (fs : List (File String)) : List (File String) := fs.foldl (fun acc f => insertFile f acc) []
+def onDisk (fs : List (File String)) : List (File String) :=
+  -- names in sorted order; the content is what the model's `disk` finds under the name
+  (fs.foldl (fun acc f => insertFile f acc) []).filterMap fun f => (disk fs f.1).map fun c => (f.1, c)
 
 def filesStr (fs : List (File String)) : String :=
   ";".intercalate ((onDisk fs).map fun f => s!"{f.1}={joinSp (f.2.map tokStr)}")
